@@ -517,6 +517,16 @@ def fam_drainbig(tier, outdir):
     return run_tlc_export("drainbig", "MC_DrainBig", cfg, outdir, tier, asan_stride=4)
 
 
+def fam_strtwice(tier, outdir):
+    """The string sink twice on the caller's same string (MC_StrTwice, history-sensitive view)."""
+    consts = {"Handles": "{1}", "MaxTime": 1, "MaxCalls": 4, "PipeCap": 4, "MaxOut": 3, "ExitCodes": "{3}", "TermDelay": 1, "Both": "FALSE"}
+    if tier == "thorough":
+        consts.update({"MaxTime": 2, "Both": "TRUE"})
+    cfg = os.path.join(outdir, "MC_StrTwice.cfg")
+    write_cfg(cfg, "Spec", consts, ["TypeOK", "LifeChild", "Conservation"], export_stride=1, view="viewT")
+    return run_tlc_export("strtwice", "MC_StrTwice", cfg, outdir, tier, asan_stride=4)
+
+
 def fam_nest(tier, outdir):
     """Re-entrancy: a sink that drains another child before it looks at its own chunk (MC_Nest)."""
     consts = {"Handles": "{1, 2}", "MaxTime": 0, "MaxCalls": 6, "PipeCap": 4, "MaxOut": 3, "ExitCodes": "{3}", "TermDelay": 1}
@@ -1319,7 +1329,7 @@ def run_tlc_plain(name, module, cfgpath, outdir, timeout=1500, workers=8):
     return st
 
 
-FAMILIES = {"drainbig": fam_drainbig, "nest": fam_nest, "cxx": fam_cxx, "anyfault": fam_anyfault, "realstatus": fam_realstatus, "real": fam_real, "optprod": fam_optprod, "free": fam_free, "env2": lambda t, o: fam_launch("env2", t, o), "two": fam_two, "restart": fam_restart, "threads": fam_threads, "conc": fam_conc, "wincmd": fam_wincmd, "wrapper": fam_wrapper, "faults": fam_faults, "env": lambda t, o: fam_launch("env", t, o), "wiring": lambda t, o: fam_launch("wiring", t, o), "options": lambda t, o: fam_launch("options", t, o),
+FAMILIES = {"strtwice": fam_strtwice, "drainbig": fam_drainbig, "nest": fam_nest, "cxx": fam_cxx, "anyfault": fam_anyfault, "realstatus": fam_realstatus, "real": fam_real, "optprod": fam_optprod, "free": fam_free, "env2": lambda t, o: fam_launch("env2", t, o), "two": fam_two, "restart": fam_restart, "threads": fam_threads, "conc": fam_conc, "wincmd": fam_wincmd, "wrapper": fam_wrapper, "faults": fam_faults, "env": lambda t, o: fam_launch("env", t, o), "wiring": lambda t, o: fam_launch("wiring", t, o), "options": lambda t, o: fam_launch("options", t, o),
             "destroy": fam_destroy, "status": fam_status, "run": fam_run, "stop": fam_stop, "life": fam_life, "poll": fam_poll, "stream": fam_stream, "drain": fam_drain}
 
 PROPS = {
@@ -1346,7 +1356,7 @@ PROPS = {
     "C02": {"families": ["stream", "threads", "free"], "title": "stream fidelity"},
     # (thorough: the destroy scripts also run through the C++ destructor in C16's cxx family)
     "C15": {"families": ["destroy", "restart", "free"], "title": "destroy applies the stop policy"},
-    "C16": {"families": ["drain", "drainbig", "run", "nest", "cxx", "free"], "title": "drain and run"},
+    "C16": {"families": ["drain", "drainbig", "strtwice", "run", "nest", "cxx", "free"], "title": "drain and run"},
     "C17": {"families": ["stream", "wiring", "threads", "free"], "title": "nonblocking never blocks; blocking waits only for the child"},
     "C08": {"families": ["poll", "restart", "free"], "title": "deadlines and timeouts bound every wait and poll"},
     "C09": {"families": ["poll", "stream", "threads", "free"], "title": "poll reports exactly the true events"},
@@ -1425,15 +1435,31 @@ def conclude(prop, tier, results, known, outdir, t0):
         os.makedirs(rdir)
     confirmed = 0
     for n, (sig, items) in enumerate(sorted(groups.items(), key=lambda kv: -len(kv[1]))):
-        fam, d = items[0]
+        # candidates to re-run: one per family first (the same signature can come from a family where it only shows as a
+        # leftover of an EARLIER script of the batch, and from one where the script itself is enough), then a few more
+        cands, seen_f = [], set()
+        for it in items:
+            if it[0] not in seen_f:
+                seen_f.add(it[0]); cands.append(it)
+        cands += [it for it in items[:6] if it not in cands]
+        fam, d = cands[0]
         path = os.path.join(rdir, "v%03d.json" % n)
-        with open(path, "w") as f:
-            json.dump({"property": prop, "family": fam, "signature": sig, "count": len(items), "divergence": d,
-                       "script": d.get("script")}, f)
+        def dump(fam_, d_):
+            with open(path, "w") as f:
+                json.dump({"property": prop, "family": fam_, "signature": sig, "count": len(items), "divergence": d_,
+                           "script": d_.get("script")}, f)
+        dump(fam, d)
         if n < 25:
             # report only what an immediate re-run repeats (guards against the environment, DESIGN 5.8)
-            if d.get("script") is not None and d.get("kind") not in ("contract", "threads", "rejected", "optprod") and d.get("fn") != "wincmd" and replay(path, quiet=True) == 0:
-                continue
+            if d.get("script") is not None and d.get("kind") not in ("contract", "threads", "rejected", "optprod") and d.get("fn") != "wincmd":
+                repeated = False
+                for fam_, d_ in cands[:8]:
+                    dump(fam_, d_)
+                    if replay(path, quiet=True) != 0:
+                        repeated = True; fam, d = fam_, d_
+                        break
+                if not repeated:
+                    continue
             if d.get("kind") == "contract" and d.get("fn") not in ("wincmd", "anyfault", "wait") and n < 6 and not recheck_contract(d, os.path.join(OUT, prop, "recheck")):
                 continue
             confirmed += 1
